@@ -2,7 +2,7 @@
 # maintainer tool: run every registered check of a tier, print exit code, wall time and the summary line
 tier="${1:-quick}"; shift
 ids="${@:-C01 C02 C03 C04 C05 C06 C07 C08 C09 C10 C11 C12 C13 C14 C15 C16 C17 C18 C19 C20}"
-cd /verif || exit 2
+cd "$(dirname "$(readlink -f "$0")")/.." || exit 2
 for id in $ids; do
   s=$(date +%s)
   out=$(./check "$id" "$tier" 2>&1); rc=$?
